@@ -28,7 +28,8 @@ PROPS["C11"].update({
 PROPS["C08"] = {
     "modules": ["OxiaVerif.Props.C08"],
     "facts": ["writeHoldsAppendLockAcrossAllocAndAppend", "writeChecksLeaderStatusBeforeAlloc", "trackerCommitsAtRequiredAcks",
-              "walRejectsNonContiguousOffsets", "walSyncCallbacksOnlyForFlushedEntries", "trackerCompletesWaitersUnderLock"],
+              "walRejectsNonContiguousOffsets", "walSyncCallbacksOnlyForFlushedEntries", "trackerCompletesWaitersUnderLock",
+              "walSyncToleratesRollover", "walRolloverFlushesSegment"],
     "trusted_base": [KERNEL, EXTRACT, CORR,
                      "Go mutexes/atomics: the tracker's methods are modelled as atomic events (each runs under q.Lock); the write pipeline as events write / sync / ack / newCursor",
                      "the WAL's group commit is tied by a regenerated fact about the order of the steps in runSync, not run under a race"],
@@ -77,7 +78,7 @@ PROPS["C20"] = {
 NOT_APPLICABLE = {}
 
 # verif-guarded hook commits in /repo (add-only)
-HOOK_COMMITS = ["fd0e965", "d11cf72", "46739fb", "981ad0e", "643526d", "e05858a", "edb0adb", "7d5379a", "42d08ad", "d63880c", "c52c40e", "cfdc2ec", "ee229a3"]
+HOOK_COMMITS = ["fd0e965", "d11cf72", "46739fb", "981ad0e", "643526d", "e05858a", "edb0adb", "7d5379a", "42d08ad", "d63880c", "c52c40e", "cfdc2ec", "ee229a3", "82ee13c"]
 
 PROPS["C09"] = {
     "modules": ["OxiaVerif.Props.C09", "OxiaVerif.Props.C09OnTree"],
